@@ -35,6 +35,11 @@ def _index_guarded(conds, base, key):
     """Do the path conditions establish 0 <= key < len(base)?  (key a non-negative constant: a lower bound on len(base) above it,
     or base/len(base) tested truthy for index 0; key a term: key < len(base) in either orientation.)"""
     ln = ("call", ("builtin", "len"), (base,))
+    if isinstance(key, tuple) and key[:1] == ("iterof",) and isinstance(key[1], tuple) and key[1][:2] == ("call", ("builtin", "range")) \
+            and 1 <= len(key[1][2]) <= 2 and key[1][2][-1] == ln:
+        lo = key[1][2][0] if len(key[1][2]) == 2 else ("const", 0)
+        if is_const(lo) and isinstance(lo[1], int) and lo[1] >= 0:
+            return True       # an element of range([a,] len(base)) drawn by a comprehension
     for c in conds:
         t, pol = c.term, c.pol
         while isinstance(t, tuple) and t and t[0] == "not":
@@ -62,6 +67,21 @@ def _index_guarded(conds, base, key):
                 op, a, b = _FLIPOP[op], b, a
             if a == key and b == ln and op == "<":
                 return True
+    return False
+
+
+def _is_number_term(t, depth=0):
+    """Built from integer constants, parameters, loop-carried locals, arithmetic and len(): a number that was computed once."""
+    if depth > 6 or not isinstance(t, tuple) or not t:
+        return False
+    if t[0] == "const":
+        return isinstance(t[1], int) and not isinstance(t[1], bool)
+    if t[0] in ("unk", "param"):
+        return True
+    if t[0] == "binop" and t[1] in ("Add", "Sub", "Mult", "FloorDiv", "Mod", "BitAnd", "BitOr", "LShift", "RShift"):
+        return _is_number_term(t[2], depth + 1) and _is_number_term(t[3], depth + 1)
+    if t[0] == "call" and t[1] == ("builtin", "len") and len(t[2]) == 1:
+        return True
     return False
 
 
@@ -651,6 +671,9 @@ class ExprMixin:
                 return const(bool(res))
             except Exception:
                 pass
+        if a == b and op in ("==", "!=", "<=", ">=", "<", ">") and _is_number_term(a):
+            # the very same number on both sides (n = len(buf) ... if last == n, with last = n on this path)
+            return const(op in ("==", "<=", ">="))
         if op in ("is", "is not", "==", "!="):
             # a sentinel (NAME = object(), made once when its module or class body runs) is identical to itself and to nothing
             # else that has an identity of its own
